@@ -577,7 +577,7 @@ func (x *SExec) apply(i int, op SOp) *Fail {
 		}
 		x.tracef("%s n%d -> gone=%v after %v", op.K, n, gone, time.Since(t0))
 		if !gone {
-			return sfail(op.K+"|not-detached", fmt.Sprintf("n%d still listed 30 s after its %s", n, op.K), "C05")
+			return sfail(op.K+"|not-detached", fmt.Sprintf("n%d still listed 30 s after its %s", n, op.K), "C05", "C15")
 		}
 		x.detach(n)
 		x.Labels[op.K]++
@@ -970,6 +970,9 @@ func (x *SExec) doWrite(i int, op SOp) *Fail {
 		if !applied[j] {
 			if m, ok := listed[st.Nodes[j].Addr]; ok {
 				props := []string{"C02", "C05"}
+				if o := outcomeOf(op, j); o == STALL || o == DROP || o == DROPWAIT {
+					props = append(props, "C15") // a deadline or connection failure that did not get the replica detached
+				}
 				detail := fmt.Sprintf("n%d failed the %s (outcome %s) but is still listed as %s when the call returned", j, op.K, outcomeOf(op, j), m)
 				upToDate := 0
 				for a := range applied {
